@@ -11,7 +11,7 @@ PROP = {
     ],
 }
 TEXT = {
-    "text": "Coq theorem over ALL byte strings, clocks and states: udp_receive either leaves the whole state (memory and disk) equal, or the leading 80 bytes decode to a report of an authorized device, verified under that device's key over the signing bytes, |ts-now|<=432 over Z (int64 comparison proved exact for all uint32 pairs), inside [offset, offset+4032), power not 0/1. The executable model is compared with the real server (snapshot through a verif hook, report log on disk, TCP sync, statistics) on generated datagram histories at boundary clock/offset configurations; an implementation-only oracle checks the property text on every datagram.",
+    "text": "Coq theorem over ALL byte strings, clocks and states: udp_receive either leaves the whole state (memory and disk) equal, or the leading 80 bytes decode to a report of an authorized device, verified under that device's key over the signing bytes, |ts-now|<=432 over Z (int64 comparison proved exact for all uint32 pairs), inside [offset, offset+4032), power not 0/1. The executable model is compared with the real server (snapshot through a verif hook, report log on disk, TCP sync, statistics) on generated datagram histories at boundary clock/offset configurations; an implementation-only oracle checks the property text on every datagram. Added after seeded-change rounds: short / over-long datagrams over the real UDP socket (incl. a report whose signature ends in 0x00 cut to 79 bytes), clock and timeslot at opposite ends of the 32-bit range, the (r, n-s) twin of every accepted signature checked by an independent verifier.",
     "note": "Trusted: Coq kernel+vm_compute, harness (generators, snapshot hook, signature table). Crypto is a parameter: that secp256k1 rejects altered signatures is tested, not proved. Injection wrapper emulates the listener's 80-byte buffer; a sample goes over the real UDP socket.",
     "technique": "Coq proof (case analysis over the handler, lia for the no-wrap lemma) + differential correspondence of the executable model (vm_compute) + property oracle",
 }
